@@ -188,4 +188,28 @@ theorem execWrites_world {W : Type} (wr : String → S → W → W) (ws : List (
     have := h (tg, v) (by simp)
     cases tg <;> simp_all [execWrite, Target.isForeign]
 
+theorem fetchLoop_flatten {X : Type} (batch : Nat) (hb : 1 ≤ batch) :
+    ∀ (fuel : Nat) (rows : List X), rows.length < fuel → (fetchLoop batch fuel rows).flatten = rows := by
+  intro fuel
+  induction fuel with
+  | zero => intro rows h; omega
+  | succ fuel ih =>
+    intro rows h
+    cases rows with
+    | nil => simp [fetchLoop]
+    | cons x xs =>
+      have hne : ((x :: xs).take batch).isEmpty = false := by
+        cases batch with
+        | zero => omega
+        | succ b => simp
+      simp only [fetchLoop, hne, Bool.false_eq_true, if_false, List.flatten_cons]
+      have hlen : ((x :: xs).drop batch).length < fuel := by
+        simp only [List.length_drop, List.length_cons] at h ⊢
+        omega
+      rw [ih _ hlen, List.take_append_drop]
+
+theorem tableBatches_flatten {X : Type} (batch : Nat) (hb : 1 ≤ batch) (rows : List X) :
+    (tableBatches batch rows).flatten = rows :=
+  fetchLoop_flatten batch hb _ rows (Nat.lt_succ_self _)
+
 end FlowRecord.Readers
